@@ -182,6 +182,10 @@ func (r *c35Run) observe(where string) (newFiles int) {
 	for _, f := range files {
 		if _, ok := r.firstReq[f]; !ok {
 			r.firstReq[f] = r.req
+			if where == "close" {
+				// every handler phase is probed: a file first seen at close was created while the NEXT request was read
+				r.firstReq[f] = r.req + 1
+			}
 			newFiles++
 		}
 	}
@@ -280,6 +284,8 @@ type c35ReqSpec struct {
 	bad      bool
 	te, clos bool
 	plain    bool
+	drain    int    // > 0: the Content-Length announces this many bytes behind the closing boundary that are never sent
+	// (the connection then ends with EOF or, with cfg eof=timeout, with a read error); last request of the pipeline
 	limit    string // "": none; "tight": handler's limit = body length - 1; "epi": form + short epilogue, limit = form length;
 	// "loose": limit = body length (accepted)
 }
@@ -318,6 +324,11 @@ func c35ParseSpec(b []byte) c35ReqSpec {
 			s.clos = true
 		case "plain":
 			s.plain = true
+		case "drain":
+			s.drain, _ = strconv.Atoi(v)
+			if s.drain > 5000 {
+				s.drain = 5000
+			}
 		case "limit":
 			if v == "tight" || v == "epi" || v == "loose" {
 				s.limit = v
@@ -345,6 +356,7 @@ func c35Conn(a [][]byte) *Case {
 	var stream bytes.Buffer
 	var specs []c35ReqSpec
 	failAt := 0 // 1-based request number whose pre-parse must fail (0 = none)
+	drainAt, drainFiles := 0, 0
 	for i, sb := range a[1:] {
 		sp := c35ParseSpec(sb)
 		specs = append(specs, sp)
@@ -411,6 +423,19 @@ func c35Conn(a [][]byte) *Case {
 				rest = rest[n:]
 			}
 			stream.WriteString("0\r\n\r\n")
+		} else if pre && sp.drain > 0 && !sp.bad && failAt == 0 {
+			// the form is complete, the declared body is not: readMultipartForm fails while draining the rest
+			sent := sp.drain / 3
+			fmt.Fprintf(&stream, "Content-Length: %d\r\n\r\n", len(body)+sp.drain)
+			stream.Write(body)
+			stream.WriteString(strings.Repeat("e", sent))
+			drainAt = num
+			for _, sz := range sp.sizes {
+				if sz > 16<<20 {
+					drainFiles = 1
+				}
+			}
+			break
 		} else {
 			fmt.Fprintf(&stream, "Content-Length: %d\r\n\r\n", len(body))
 			stream.Write(body)
@@ -439,6 +464,12 @@ func c35Conn(a [][]byte) *Case {
 		evs = append(evs, "C")
 	case failAt > 0 && run.req == failAt-1:
 		evs = append(evs, "E", "Z", "C")
+	case drainAt > 0 && run.req == drainAt-1:
+		kind := "e"
+		if cfg.AtEOF == "timeout" {
+			kind = "t"
+		}
+		evs = append(evs, fmt.Sprintf("G%s%d", kind, drainFiles), "Z", "C")
 	default:
 		evs = append(evs, "F", "Z", "C")
 	}
@@ -700,7 +731,7 @@ func init() {
 		ID: "C35",
 		Rule: "conn: keep-alive pipelines of 1..4 requests through the in-memory server connection with a private TMPDIR listed at every dispatch, after every handler multipart operation and at close; " +
 			"multipart bodies with 0..6 text fields and 0..4 files of sizes around the 8 KiB (streamed on-demand parse) and 16 MiB (pre-parse) thresholds, Content-Length or chunked, StreamRequestBody on/off, DisablePreParseMultipartForm on/off, " +
-			"truncated bodies (parse errors), handler ops MultipartForm/MultipartFormWithLimit/RemoveMultipartFormFiles/ResetBody in any order, TimeoutError, Connection: close; " +
+			"truncated bodies (parse errors), complete forms whose announced epilogue never arrives (connection EOF or read timeout error during the drain), handler ops MultipartForm/MultipartFormWithLimit/RemoveMultipartFormFiles/ResetBody in any order, TimeoutError, Connection: close; " +
 			"MultipartFormWithLimit at its boundary on streamed bodies with file parts > 8 KiB: limit = body length - 1, form + short epilogue with limit = form length, limit = body length; " +
 			"roundtrip: forms (values incl. empty/UTF-8/CRLF, several values per key, files in memory and on disk) written by WriteMultipartForm with random boundaries and parsed back by mime/multipart and by Request.MultipartForm; " +
 			"reqrt: request read (pre-parsed) and re-written, parsed by net/http. non-trivial = at least one temp file really created / form with files; distinct = distinct input",
@@ -870,6 +901,32 @@ func init() {
 			emit("conn", B("mb=30000000,st=1,npp=1"), B("fields=1&files=262144&limit=epi&ops=ml"), B("plain=1"))
 			emit("conn", B("mb=30000000,st=1"), B("fields=0&files=9000&limit=tight&ops=ml&chunked=1&close=1"))
 			emit("conn", B("mb=30000000,st=1,npp=1"), B("fields=1&files=20000&limit=loose&ops=ml"), B("fields=1&files=20000&limit=tight&ops=ml"), B("plain=1"))
+			// pre-parse whose form is complete but whose declared body is not: the rest never arrives — the connection
+			// ends (EOF) or the read fails (timeout error); small forms (no temp file) often, > 16 MiB forms a few times
+			for i := 0; i < n/8; i++ {
+				cfg := "mb=30000000"
+				if r.Bool() {
+					cfg += ",st=1"
+				}
+				if r.Bool() {
+					cfg += ",eof=timeout"
+				}
+				args := [][]byte{B(cfg)}
+				if r.Bool() {
+					args = append(args, B(genReq(false)))
+				}
+				args = append(args, B(fmt.Sprintf("fields=%d&files=%s&drain=%d", r.Intn(4), sizes(), 1+r.Intn(3000))))
+				emit("conn", args...)
+			}
+			for _, c := range []string{"mb=40000000", "mb=40000000,eof=timeout", "mb=40000000,st=1,eof=timeout"} {
+				emit("conn", B(c), B("fields=1&files=300&ops=mf"), B(fmt.Sprintf("fields=1&files=big&drain=%d", 10+r.Intn(200))))
+			}
+			if tier == "thorough" {
+				for i := 0; i < 12; i++ {
+					c := []string{"mb=40000000", "mb=40000000,eof=timeout", "mb=40000000,st=1,eof=timeout", "mb=40000000,st=1"}[i%4]
+					emit("conn", B(c), B(fmt.Sprintf("fields=%d&files=100,big&drain=%d", r.Intn(3), 1+r.Intn(4000))))
+				}
+			}
 			// pre-parse beyond 16 MiB: temp files exist BEFORE the handler runs
 			for i := 0; i < bigN; i++ {
 				cfg := "mb=40000000"
